@@ -130,12 +130,12 @@ SOURCE_TIE = {
     "C01": ("C01_source", "jwt.Decode with loadClaims and parseHeaders (accepts exactly what the model's decode accepts, same kind and issuer), ClaimsData.verify, identifier.Version"),
     "C02": (["C02_source", "C02_source_encode"], "the six typed decoders (each against the model's decode_typed), identifier.Kind; on the Encode side ClaimsData.doEncode's role rule and every kind's Encode (refusing whenever the model's encode_gate refuses)"),
     "C05": (["C05_source", "C05_source_encode"], "Header.Valid, parseHeaders, loadClaims; on the Encode side ClaimsData.doEncode (version-2 algorithm only, three segments, signature over header-dot-claims)"),
-    "C06": ("C06_source", "Subject.countTokenWildcards, Subject.Validate, ServiceLatency.Validate, Export.Validate (with the Export kind / response-type predicates)"),
+    "C06": (["C06_source", "C06_source_imports"], "Subject.countTokenWildcards, Subject.Validate, ServiceLatency.Validate, Export.Validate (with the Export kind / response-type predicates); Imports.Validate (the walk over the import list with its set of delivery subjects, every pair compared both ways) against the model's v_imports"),
     "C07": ("C07_source", "ClaimsData.Validate (v2 and v1compat), the time checks every kind delegates to"),
     "C08": ("C08_source", "OperatorClaims.DidSign and AccountClaims.DidSign"),
     "C09": ("C09_source", "RevocationList.Revoke / ClearRevocation / IsRevoked / allRevoked / MaybeCompact (v2 and v1compat), AccountClaims.IsClaimRevoked / isRevoked, Export.IsClaimRevoked / isRevoked"),
     "C12": ("C12_source", "ClaimsData.doEncode (what a successful Encode did, in order, with an effect log; completeness; the empty token on failure), ClaimsData.encode and the Encode of all seven kinds, each proved to return what the model's encode returns under the full gate, with the same claims object afterwards"),
-    "C10": ("C10_source", "Subject.IsContainedIn / HasWildCards (v2 and v1compat)"),
+    "C10": (["C10_source", "C10_source_import"], "Subject.IsContainedIn / HasWildCards (v2 and v1compat); Import.Validate with Import.IsService / IsStream / GetTo and ActivationClaims.validateWithTimeChecks (appends exactly the model's v_import, whose token part v_import_token the C10 theorems are about)"),
     "C16": ("C16_source", "Subject.IsContainedIn / HasWildCards (v2 and v1compat)"),
     "C18": ("C18_source", "cleanSubject (v2 and v1compat)"),
     "C19": ("C19_source", "the v1compat Decode(token, target) with parseHeaders and parseClaims (accepts exactly what the model's v1_decode accepts, for every target kind)"),
